@@ -15,8 +15,9 @@ import json
 import vf
 
 
-def cfg(uris, n, guard, emit=True, props=False, view=False, split=False):
-    s = "CONSTANTS URIs = {%s}  MaxChanges = %d  Guard = \"%s\"  Split = %s\n" % (", ".join('"%s"' % u for u in uris), n, guard, "TRUE" if split else "FALSE")
+def cfg(uris, n, guard, emit=True, props=False, view=False, split=False, closes=0):
+    s = "CONSTANTS URIs = {%s}  MaxChanges = %d  Guard = \"%s\"  Split = %s  MaxCloses = %d\n" % (
+        ", ".join('"%s"' % u for u in uris), n, guard, "TRUE" if split else "FALSE", closes)
     s += "SPECIFICATION Spec\n" if props else "INIT Init\nNEXT Next\n"
     if view:
         s += "VIEW view\n"
@@ -30,6 +31,7 @@ def cfg(uris, n, guard, emit=True, props=False, view=False, split=False):
 def model_check(run):
     # the repaired mechanism satisfies the contract for every interleaving, incl. liveness under fairness
     r = run.tlc("Diag", cfg(["u1", "u2"], 5 if run.tier == "thorough" else 4, "latest", emit=False, props=True, view=False), workers=4, timeout=1800)
+    run.tlc("Diag", cfg(["u1", "u2"], 4, "latest", emit=False, props=True, view=False, closes=2), workers=4, timeout=1800)
     # the unguarded mechanism must violate it (the model is not vacuous)
     r2 = run.tlc("Diag", cfg(["u1"], 2, "none", emit=False, view=True), workers=1, allow_violation=True)
     if r2.ok or "Invariant Converged is violated" not in r2.stdout:
@@ -64,6 +66,19 @@ def gen(run):
         if cap:
             scheds = run.rng.sample(scheds, cap)
         out += [("%du_%d" % (len(uris), n), c) for c in scheds]
+    # bursts in which a document is closed once and opened again: after the re-open the last word must be the latest version's
+    for uris, n, cap in ([(["u1"], 3, 500), (["u1", "u2"], 3, 300)] if not thorough else [(["u1"], 3, None), (["u1"], 4, 6000), (["u1", "u2"], 3, 6000)]):
+        r = run.tlc("Diag", cfg(uris, n, "none", emit=True, closes=1), workers=1, timeout=1800)
+        seen = set()
+        scheds = []
+        for c in r.json:
+            key = json.dumps(c["schedule"], sort_keys=True)
+            if key not in seen and any(ev["e"] == "close" for ev in c["schedule"]):
+                seen.add(key)
+                scheds.append(c)
+        if cap and len(scheds) > cap:
+            scheds = run.rng.sample(scheds, cap)
+        out += [("close%du_%d" % (len(uris), n), c) for c in scheds]
     # schedules in which the decision at the publish point and the delivery of the notification are separate events
     for uris, n, cap in ([(["u1"], 2, None), (["u1"], 3, None), (["u1"], 4, 400), (["u1", "u2"], 3, 300)] if not thorough
                          else [(["u1"], 2, None), (["u1"], 3, None), (["u1"], 4, None), (["u1", "u2"], 3, None), (["u1", "u2"], 4, 8000)]):
